@@ -79,9 +79,13 @@ def h_leaf(cname, n, G, pars=None):
         if a_in.kind == 'b':
             for i in range(n):
                 h.assume(z3.ULE(h.raw_init('fromptr', i), 1))
-        if a_in.kind == 'i' and a_in.bits == 64 and not a_in.signed:
-            for i in range(n):
-                h.assume(h.init('fromptr', i) >= 0)
+    u64 = a_in is not None and a_in.kind == 'i' and a_in.bits == 64 and not a_in.signed
+
+    def lt(a, b):                    # the input type's own order (uint64 is the one type the 64-bit signed order gets wrong)
+        return z3.ULT(a, b) if u64 else a < b
+
+    def gt(a, b):
+        return z3.UGT(a, b) if u64 else a > b
     if pars is not None:            # case split on the group assignment (products: symbolic x symbolic multiplication)
         h.array('parents', 'int64_t', n, const=True, values=list(pars))
     else:
@@ -136,7 +140,7 @@ def h_leaf(cname, n, G, pars=None):
                     if a_in.kind == 'f':
                         better = z3.fpLT(xs[i], acc) if op == 'min' else z3.fpGT(xs[i], acc)
                     else:
-                        better = xs[i] < acc if op == 'min' else xs[i] > acc
+                        better = lt(xs[i], acc) if op == 'min' else gt(xs[i], acc)
                     acc = z3.If(z3.And(ing[i], better), xs[i], acc)
                 exp = acc
             elif op in ('argmin', 'argmax'):
@@ -151,7 +155,7 @@ def h_leaf(cname, n, G, pars=None):
                         if a_in.kind == 'f':
                             better = z3.fpLT(xs[i], bestv) if op == 'argmin' else z3.fpGT(xs[i], bestv)
                         else:
-                            better = xs[i] < bestv if op == 'argmin' else xs[i] > bestv
+                            better = lt(xs[i], bestv) if op == 'argmin' else gt(xs[i], bestv)
                         take = z3.And(ing[i], z3.Or(best == -1, better))
                     bestv = xs[i] if bestv is None else z3.If(take, xs[i], bestv)
                     best = z3.If(take, BV(i), best)
